@@ -100,13 +100,23 @@ package node
 //@   ensures hnd.Val != nil && leafType(r.Meta).format.IsNumeric() ==> (result1 == nil) == rangesOK(leafType(r.Meta), hnd.Val)
 
 // ---- ghost protocol state: what the library asks of node implementations ---------------------------
+// open:     BeginEdit calls that returned nil, minus EndEdit calls
+// failed:   some node callback has returned an error
+// nodeWrites: requests that change data: Field(Write), Child(New|Delete), Next(New|Delete)
+// writesAfterFail: such requests issued when a callback had already failed
+//@ ghost var open int
+//@ ghost var failed bool
+//@ ghost var nodeWrites int
+//@ ghost var writesAfterFail int
 // fieldWrites counts Field requests with Write set that were issued to any node.
 //@ ghost var fieldWrites int
 
 //@ interface Node.Field(r FieldRequest, hnd *ValueHandle) error
-//@   assigns fieldWrites, hnd.Val
-//@   ensures r.Write ==> fieldWrites == old(fieldWrites) + 1
-//@   ensures !r.Write ==> fieldWrites == old(fieldWrites)
+//@   assigns fieldWrites, nodeWrites, writesAfterFail, failed, hnd.Val
+//@   ensures fieldWrites == old(fieldWrites) + (r.Write ? 1 : 0)
+//@   ensures nodeWrites == old(nodeWrites) + (r.Write ? 1 : 0)
+//@   ensures writesAfterFail == old(writesAfterFail) + ((r.Write && old(failed)) ? 1 : 0)
+//@   ensures failed == (old(failed) || result != nil)
 
 // constraints may adjust the request and the value handle but never talk to nodes
 //@ interface FieldPreConstraint.CheckFieldPreConstraints(r *FieldRequest, hnd *ValueHandle) (bool, error)
@@ -131,8 +141,11 @@ package node
 //@   mode int
 //@   property C05
 //@   requires sel != nil && sel.Constraints != nil && sel.Node != nil && r != nil && hnd != nil
-//@   ensures (!proceed || constraintErr != nil) ==> fieldWrites == old(fieldWrites) && result == constraintErr
-//@   ensures proceed && constraintErr == nil ==> fieldWrites == old(fieldWrites) + 1
+//@   assigns open, failed, nodeWrites, writesAfterFail, fieldWrites, fieldPostChecks, nonNavChecks, sel.Constraints.compiled, *r, hnd.Val
+//@   check (!proceed || constraintErr != nil) ==> fieldWrites == old(fieldWrites) && result == constraintErr
+//@   check proceed && constraintErr == nil ==> fieldWrites == old(fieldWrites) + 1
+//@   ensures open == old(open) && ((failed && !old(failed)) ==> result != nil) && (!old(failed) ==> writesAfterFail == old(writesAfterFail))
+//@   ensures nodeWrites <= old(nodeWrites) + 1
 
 // ---- C07: query parameters ---------------------------------------------------------------------------
 
@@ -364,9 +377,11 @@ package node
 //@   mode int
 //@   property C04 C07
 //@   requires sel != nil && sel.Constraints != nil && sel.Node != nil && r != nil && hnd != nil && r.Meta != nil && !r.Write
-//@   ensures (!proceed || constraintErr != nil) ==> result == constraintErr && fieldPostChecks == old(fieldPostChecks) && fieldWrites == old(fieldWrites)
-//@   ensures result == nil && proceed && constraintErr == nil ==> fieldPostChecks == old(fieldPostChecks) + 1
-//@   ensures fieldWrites == old(fieldWrites)
+//@   assigns open, failed, nodeWrites, writesAfterFail, fieldWrites, fieldPostChecks, nonNavChecks, sel.Constraints.compiled, *r, hnd.Val
+//@   check (!proceed || constraintErr != nil) ==> result == constraintErr && fieldPostChecks == old(fieldPostChecks) && fieldWrites == old(fieldWrites)
+//@   check result == nil && proceed && constraintErr == nil ==> fieldPostChecks == old(fieldPostChecks) + 1
+//@   ensures fieldWrites == old(fieldWrites) && nodeWrites == old(nodeWrites)
+//@   ensures open == old(open) && ((failed && !old(failed)) ==> result != nil) && writesAfterFail == old(writesAfterFail)
 
 // ---- C13/C08: request paths ---------------------------------------------------------------------------------
 // no path text can crash the parser; every segment it returns names a schema node, and only list segments carry keys
@@ -408,10 +423,6 @@ package node
 // failed:   some node callback has returned an error
 // nodeWrites: requests that change data: Field(Write), Child(New|Delete), Next(New|Delete)
 // writesAfterFail: such requests issued when a callback had already failed
-//@ ghost var open int
-//@ ghost var failed bool
-//@ ghost var nodeWrites int
-//@ ghost var writesAfterFail int
 
 //@ interface Node.BeginEdit(r NodeRequest) error
 //@   assigns open, failed
@@ -462,12 +473,13 @@ package node
 //@ func (sel *Selection) beginEdit(r NodeRequest, bubble bool) error
 //@   mode int
 //@   property C12
-//@   requires wfSel(sel) && wfSelChain(sel)
-//@   loop 1 invariant r.Selection != nil && anc(r.Selection, sel) && wfSelChain(r.Selection) && (bubble || r.Selection == sel)
+//@   requires wfSel(sel) && (bubble ==> wfSelChain(sel))
+//@   assigns open, failed
+//@   loop 1 invariant r.Selection != nil && r.Selection.Node != nil && anc(r.Selection, sel) && (bubble ==> wfSelChain(r.Selection)) && (bubble || r.Selection == sel)
 //@   loop 1 invariant open == old(open) + chain(sel, bubble) - chain(r.Selection, bubble)
 //@   loop 1 invariant failed == old(failed)
 //@   loop 1 decreases selLen(r.Selection)
-//@   loop 2 invariant anc(failedAt, s) && wfSelChain(s) && failedAt != nil && (bubble || s == failedAt)
+//@   loop 2 invariant anc(failedAt, s) && (bubble ==> wfSelChain(s)) && failedAt != nil && (bubble || s == failedAt)
 //@   loop 2 invariant open == old(open) + chain(s, bubble) - chain(failedAt, bubble)
 //@   loop 2 decreases selLen(s)
 //@   ensures result == nil ==> open == old(open) + chain(sel, bubble) && failed == old(failed)
@@ -476,8 +488,9 @@ package node
 //@ func (sel *Selection) endEdit(r NodeRequest, bubble bool) error
 //@   mode int
 //@   property C12
-//@   requires wfSel(sel) && wfSelChain(sel)
-//@   loop 1 invariant r.Selection != nil && anc(r.Selection, sel) && wfSelChain(r.Selection)
+//@   requires wfSel(sel) && (bubble ==> wfSelChain(sel))
+//@   assigns open, failed
+//@   loop 1 invariant r.Selection != nil && r.Selection.Node != nil && anc(r.Selection, sel) && (bubble ==> wfSelChain(r.Selection)) && (bubble || r.Selection == sel)
 //@   loop 1 invariant open == old(open) - chain(sel, bubble) + chain(r.Selection, bubble)
 //@   loop 1 invariant failed == (old(failed) || firstErr != nil)
 //@   loop 1 decreases selLen(r.Selection)
@@ -525,6 +538,7 @@ package node
 //@   mode int
 //@   property C12 C03 C08
 //@   requires wfS(sel) && r != nil && r.Meta != nil
+//@   assigns nodeWrites, writesAfterFail, failed, nonNavChecks, sel.Constraints.compiled, r.Path
 //@   ensures stepOK(result1)
 //@   ensures nodeWrites == old(nodeWrites) || (nodeWrites == old(nodeWrites) + 1 && (r.New || r.Delete))
 //@   ensures r.New == old(r.New) && r.Delete == old(r.Delete) && r.Target == old(r.Target)
@@ -535,6 +549,7 @@ package node
 //@   mode int
 //@   property C12 C03 C04 C08
 //@   requires wfS(sel) && r != nil && r.Selection != nil && r.Selection.Path != nil
+//@   assigns nodeWrites, writesAfterFail, failed, nonNavChecks, sel.Constraints.compiled, r.StartRow64, r.StartRow, r.Row64, r.Row
 //@   ensures stepOK(result3)
 //@   ensures nodeWrites == old(nodeWrites) || (nodeWrites == old(nodeWrites) + 1 && (r.New || r.Delete))
 //@   ensures r.New == old(r.New) && r.Delete == old(r.Delete) && r.Target == old(r.Target) && r.First == old(r.First)
@@ -542,3 +557,109 @@ package node
 //@   ensures result0 != nil ==> result0.Node != nil && result0.Path != nil
 //@   ensures result0 != nil ==> result0.Path.Meta != nil
 //@   ensures result0 != nil ==> fresh(result0)
+
+//@ func (sel *Selection) selectVisibleListItem(r *ListRequest) (*Selection, []val.Value, error)
+//@   mode bv
+//@   property C12 C04
+//@   requires wfS(sel) && r != nil && r.Selection != nil && r.Selection.Path != nil && !r.New && !r.Delete
+//@   assigns nodeWrites, writesAfterFail, failed, nonNavChecks, sel.Constraints.compiled, r.StartRow64, r.StartRow, r.Row64, r.Row
+//@   loop 1 invariant stepOK(nil) && nodeWrites == old(nodeWrites) && failed == old(failed)
+//@   ensures stepOK(result2) && nodeWrites == old(nodeWrites)
+//@   ensures result0 != nil ==> result2 == nil && wfS(result0) && result0.InsideList && fresh(result0)
+
+// the iteration over a container's definitions is abstracted (it asks the node which case of a choice is active)
+//@ func newContainerMetaList(s *Selection) *containerMetaList
+//@   trusted
+//@   assigns failed
+//@   ensures result != nil && fresh(result)
+//@ func newChoiceCaseIterator(s *Selection, m *meta.ChoiceCase) *containerMetaList
+//@   trusted
+//@   assigns failed
+//@   ensures result != nil && fresh(result)
+//@ func (self *containerMetaList) nextMeta() meta.Meta
+//@   trusted
+//@   assigns failed
+//@   ensures result != nil ==> solid(result)
+
+// Delete: one Delete request to the parent's node, inside a balanced begin/end on the selection and its ancestors
+//@ func (sel *Selection) Delete() (err error)
+//@   mode int
+//@   property C12 C18
+//@   requires wfS(sel) && wfSelChain(sel) && sel.parent != nil && sel.parent.Node != nil && !failed
+//@   requires sel.InsideList ==> dyn(sel.Path.Meta) == *meta.List
+//@   requires !sel.InsideList ==> dyn(sel.Path.Meta) == meta.HasDataDefinitions
+//@   assigns open, failed, nodeWrites, writesAfterFail, fieldWrites, fieldPostChecks, nonNavChecks
+//@   ensures open == old(open)
+//@   ensures failed ==> err != nil
+//@   ensures writesAfterFail == old(writesAfterFail)
+//@   ensures nodeWrites <= old(nodeWrites) + 1
+//@   ensures err == nil ==> nodeWrites == old(nodeWrites) + 1
+
+//@ func (sel *Selection) ClearField(m meta.Leafable) error
+//@   mode int
+//@   property C09 C12
+//@   requires wfS(sel) && m != nil
+//@   assigns open, failed, nodeWrites, writesAfterFail, fieldWrites, fieldPostChecks, nonNavChecks, sel.Constraints.compiled
+//@   ensures stepOK(result) && nodeWrites <= old(nodeWrites) + 1
+
+// ---- the editor ----------------------------------------------------------------------------------------------
+// editOK: what every editor step guarantees (C12) — balanced begin/end, node errors surface, no write after a failure
+//@ macro editPre(from *Selection, to *Selection) bool = wfS(from) && wfS(to) && !failed && solid(from.Path.Meta)
+
+//@ func (e editor) leaf(from *Selection, to *Selection, m meta.Leafable, new bool, strategy editStrategy) error
+//@   mode int
+//@   property C12 C03 C04
+//@   requires editPre(from, to) && m != nil
+//@   assigns open, failed, nodeWrites, writesAfterFail, fieldWrites, fieldPostChecks, nonNavChecks, from.Constraints.compiled, to.Constraints.compiled
+//@   ensures stepOK(result)
+
+//@ pure parentOf(m meta.Meta) meta.Meta
+//@ interface meta.Meta.Parent() meta.Meta
+//@   assigns nothing
+//@   ensures result == parentOf(self)
+
+//@ func (e editor) clearOnDifferentChoiceCase(existing *Selection, want meta.Meta) error
+//@   mode int
+//@   property C09 C12
+//@   requires wfS(existing) && solid(want) && !failed
+//@   maypanic
+//@   assigns open, failed, nodeWrites, writesAfterFail, fieldWrites, fieldPostChecks, nonNavChecks, existing.Constraints.compiled
+//@   ensures open == old(open) && (!old(failed) ==> writesAfterFail == old(writesAfterFail))
+//@   ensures [surface] (failed && !old(failed)) ==> result != nil
+
+//@ func (e editor) enter(from *Selection, to *Selection, new bool, strategy editStrategy, root bool, bubble bool) (err error)
+//@   mode int
+//@   property C12 C03 C04
+//@   requires editPre(from, to) && wfSel(to) && (bubble ==> wfSelChain(to))
+//@   assigns open, failed, nodeWrites, writesAfterFail, fieldWrites, fieldPostChecks, nonNavChecks, from.Constraints.compiled, to.Constraints.compiled
+//@   loop 1 invariant open == old(open) + chain(to, bubble) && !failed && writesAfterFail == old(writesAfterFail) && ml != nil
+//@   ensures stepOK(err)
+
+//@ func (e editor) edit(from *Selection, to *Selection, s editStrategy) (err error)
+//@   mode int
+//@   property C12
+//@   requires editPre(from, to) && wfSel(to) && wfSelChain(to)
+//@   assigns open, failed, nodeWrites, writesAfterFail, fieldWrites, fieldPostChecks, nonNavChecks, from.Constraints.compiled, to.Constraints.compiled
+//@   ensures stepOK(err)
+
+//@ func (e editor) node(from *Selection, to *Selection, m meta.HasDataDefinitions, new bool, strategy editStrategy) error
+//@   mode int
+//@   property C12 C03
+//@   requires editPre(from, to) && solid(m)
+//@   assigns open, failed, nodeWrites, writesAfterFail, fieldWrites, fieldPostChecks, nonNavChecks, from.Constraints.compiled, to.Constraints.compiled
+//@   ensures stepOK(result)
+
+//@ func (e editor) list(from *Selection, to *Selection, m *meta.List, new bool, strategy editStrategy) error
+//@   mode bv
+//@   property C12 C03 C04
+//@   requires editPre(from, to) && m != nil && from.Path != nil
+//@   assigns open, failed, nodeWrites, writesAfterFail, fieldWrites, fieldPostChecks, nonNavChecks, from.Constraints.compiled, to.Constraints.compiled
+//@   loop 1 invariant open == old(open) && !failed && writesAfterFail == old(writesAfterFail)
+//@   ensures stepOK(result)
+
+// clearing the data of a choice case (ClearField for leafs, Find + Delete for the rest) is abstracted:
+// it works on fresh copies of the selection chain, which the entry-heap specification functions cannot follow
+//@ func (e editor) clearChoiceCase(sel *Selection, c *meta.ChoiceCase) error
+//@   trusted
+//@   assigns open, failed, nodeWrites, writesAfterFail, fieldWrites, fieldPostChecks, nonNavChecks, sel.Constraints.compiled
+//@   ensures open == old(open) && ((failed && !old(failed)) ==> result != nil) && (!old(failed) ==> writesAfterFail == old(writesAfterFail))
